@@ -381,9 +381,16 @@ func init() {
 		Stubs:     commonStubs,
 		Outside:   []string{"more than 2 racers", "a grow between a caller's first attempt and its retry (sequentially covered by C11 steps with grow inside)"},
 		Quick: func() []eng.Instance {
-			is := mapPar2("C05/Map/race", "VxH_Map_par2", [][2]int{{2, 2}, {4, 4}, {5, 5}, {3, 3}, {4, 2}}, []int64{1, 1, 1, 11}, 2)
+			is := mapPar2("C05/Map/race", "VxH_Map_par2", [][2]int{{5, 5}, {3, 3}}, []int64{1, 1, 1, 11}, 2)
 			is = append(is, mapPar2("C05/MapOf/race", "VxH_MapOf_par2", [][2]int{{2, 2}, {4, 4}, {5, 5}}, []int64{1, 1, 1, 11, 2}, 2)...)
 			is = append(is, withOf(cachePar2("C05/Cache/race", [][2]string{{"GetOrCompute", "GetOrCompute"}, {"GetOrSet", "GetOrSet"}, {"Compute", "Compute"}, {"GetAndSet", "GetAndRefresh"}}, 1))...)
+			return is
+		},
+		Thorough: func() []eng.Instance {
+			// Map-level get-or-create racers: the lock-free snapshot loop of Map.Load makes these the largest formulas
+			is := mapPar2("C05/Map/race", "VxH_Map_par2", [][2]int{{2, 2}, {4, 4}, {5, 5}, {3, 3}, {4, 2}}, []int64{1, 1, 1, 11}, 2)
+			is = append(is, mapPar2("C05/MapOf/race", "VxH_MapOf_par2", [][2]int{{2, 2}, {4, 4}, {5, 5}, {3, 3}}, []int64{1, 1, 1, 11, 2}, 2)...)
+			is = append(is, withOf(cachePar2R("C05/Cache/race", [][2]string{{"GetOrCompute", "GetOrCompute"}, {"GetOrSet", "GetOrSet"}, {"Compute", "Compute"}, {"GetAndSet", "GetAndRefresh"}, {"GetOrCompute", "Set"}, {"GetAndRefresh", "GetAndRefresh"}}, 1, 3))...)
 			return is
 		},
 	})
